@@ -41,6 +41,7 @@ function render(v) {
   return "t:" + typeof v;
 }
 
+const globalsBefore = new Set(Object.getOwnPropertyNames(globalThis));
 const init = require(path.join(dir, "src", "index.js"));
 const quiet = console.log;
 console.log = () => {};
@@ -53,6 +54,11 @@ init().then((exportsObj) => {
         const fn = f[2] === "e" ? exportsObj[f[1]] : globalThis[f[1]];
         if (typeof fn !== "function") { out.push("nofunc"); continue; }
         out.push(render(fn.apply(null, f.slice(3).map(decodeArg))));
+      } else if (f[0] === "wglobals") {
+        // the functions the Go program registered on the global object, and which of them each export is
+        const added = Object.getOwnPropertyNames(globalThis).filter((n) => !globalsBefore.has(n) && typeof globalThis[n] === "function" && n !== "Go").sort();
+        const exp = Object.keys(exportsObj).sort().map((n) => n + "=" + (added.find((g) => globalThis[g] === exportsObj[n]) || "?"));
+        out.push("ok:" + added.join(",") + "|" + exp.join(","));
       } else if (f[0] === "wexports") {
         const names = Object.keys(exportsObj).sort();
         out.push("ok:" + names.map((n) => n + "=" + (typeof exportsObj[n] === "function" && exportsObj[n] === globalThis[n] ? "1" : "0")).join(","));
